@@ -129,6 +129,8 @@ def expand(fn: ast.FunctionDef, call: ast.Call, is_method: bool, make):
     dflt = fn.args.defaults
     allp = [a.arg for a in fn.args.args]
     for p, d in zip(allp[len(allp) - len(dflt):], dflt):
+        if p not in binding and not isinstance(d, ast.Constant):
+            return None          # a default is evaluated once, when the helper is defined: a mutable one ([] / {}) is shared by all calls
         binding.setdefault(p, d)
     if set(allp) - set(binding) or len(args) > len(params):
         return None
